@@ -60,8 +60,9 @@ func (d *uriDecoder) readLine(data string, commonHeader http.Header) (DecodedAmm
 	}
 	header := commonHeader.Clone()
 	for k, vv := range d.decodedConfigHeaders {
-		for _, v := range vv {
-			header.Set(k, v)
+		// headers in ammo file have priority over headers from config
+		if _, ok := header[k]; !ok {
+			header[k] = append([]string(nil), vv...)
 		}
 	}
 	a := d.pool.Get().(*ammo.Ammo)
